@@ -103,6 +103,37 @@ Section ComposeProofs.
     destruct (c_loop_spec _ _ _ _ _ _ Ec) as (H1 & H2 & H3 & H4). split; [exact H1|]. split; [exact H2|]. split; [exact H3|intros _; exact H4].
   Qed.
 
+  (* ---------------------------------------------------------------- a stop request ends the composed run *)
+  (* `run_ends_at pre rc post f`: rc (preceded by pre) is the LAST outer iteration — no further inner solve —, outer_iterations counts
+     it, and the status follows the code's ranking: Interrupted if the inner solve said so, else Converged > MaxTime > MaxIter >
+     Interrupted (ALM's own flag); for m = 0 (single inner solve, the flag is not read) the inner status is returned as it is *)
+  Definition run_ends_at (pre : list irecR) (rc : irecR) (post : list irecR) (f : final (T:=R)) : Prop :=
+    post = [] /\ f_outer f = S (length pre) /\
+    (pb_m pb <> 0%nat ->
+       f_status f = (if is_interrupted (ir_status (it_res rc)) then Interrupted
+                     else if rec_conv P rc then Converged else if ir_oot (it_res rc) then MaxTime
+                     else if Nat.eqb (S (length pre)) (p_max_iter P) then MaxIter else Interrupted)) /\
+    (pb_m pb = 0%nat -> f_status f = ir_status (it_res rc)).
+
+  (* the outer iteration after whose inner solve ALM's own stop flag is read as set (ir_stop) is the last one of the composed run *)
+  Theorem c_run_stop_ends_run fuel f0 g0 nanv Σ0 y0 x0 w0 co : crun fuel f0 g0 nanv Σ0 y0 x0 w0 = Some co ->
+    forall pre rc post, co_trace co = pre ++ rc :: post -> ir_stop (it_res rc) = true -> run_ends_at pre rc post (co_final co).
+  Proof.
+    intros Hrun pre rc post Etr Hs.
+    destruct (c_run_spec _ _ _ _ _ _ _ _ _ Hrun) as (script & Htr & Hfin & _).
+    rewrite Htr in Etr. rewrite Hfin. clear Htr Hfin Hrun.
+    destruct (Nat.eq_dec (p_max_iter P) 0) as [Hmi|Hmi].
+    { exfalso. unfold alm_run in Etr. rewrite (proj2 (Nat.eqb_eq _ _) Hmi) in Etr. cbn [fst] in Etr. destruct pre; discriminate. }
+    destruct (Nat.eq_dec (pb_m pb) 0) as [Hm|Hm].
+    { unfold alm_run in *. rewrite (proj2 (Nat.eqb_neq _ _) Hmi), (proj2 (Nat.eqb_eq _ _) Hm) in *.
+      destruct script as [|r rest]; cbn [fst snd] in *; [destruct pre; discriminate|].
+      destruct pre as [|a pre]; cbn [app] in Etr; [|destruct pre; discriminate].
+      inversion Etr; subst. unfold run_ends_at. cbn [f_outer f_status length it_res].
+      split; [reflexivity|]. split; [reflexivity|]. split; [intros H; contradiction|reflexivity]. }
+    destruct (run_stop_request_ends_run P pb f0 g0 nanv Σ0 y0 script Hmi Hm pre rc post Etr Hs) as (A & B & C & D & _).
+    unfold run_ends_at. split; [exact A|]. split; [exact C|]. split; [intros _; exact D|intros H; contradiction].
+  Qed.
+
   (* ---------------------------------------------------------------- reading `called` *)
   (* an invariant of the primal buffer that every inner solve preserves holds for the input of every call; the last call returns co_x *)
   Lemma called_last (Q : list R -> Prop) :
